@@ -122,8 +122,11 @@ pub fn sonic(cfg: &Cfg, which: usize) -> Verdict {
         8 => { w.vk.h = TA(x); w.vk.prepared_h = TA(x); }
         9 => { w.vk.beta_h = TA(x); w.vk.prepared_beta_h = TA(x); }
         10 => match w.vk.degree_bounds_and_neg_powers_of_h.as_mut() { Some(v) if !v.is_empty() => v[0].1 = TA(x), _ => return Verdict::Hold },
+        // the degree-bound label replaced by the next smaller value (not enforced when the configuration leaves a gap)
+        11 => { let c0 = w.comms[idx[0]].clone(); match c0.degree_bound() { Some(d) if d >= 2 => w.comms[idx[0]] = LabeledCommitment::new(c0.label().clone(), c0.commitment().clone(), Some(d - 1)), _ => return Verdict::Hold } }
         _ => {}
     }
+    let names = [&names[..], &["degree-bound label"]].concat();
     let vk = w.vk.clone();
     // reference: xi_0 first, xi_{i+1} after polynomial i
     let mut acc: Vec<(Option<usize>, SF)> = vec![];
@@ -156,7 +159,7 @@ pub fn sonic(cfg: &Cfg, which: usize) -> Verdict {
     total -= proof.w.0 * vk.beta_h.0;
     let reference = ok && total == SF::zero();
     let lib = catch(|| w.check(&idx, &pt, vals.clone(), &proof, &mut sp_l));
-    decide(lib, reference, &format!("sonic, replaced component: {}", names[which.min(10)]))
+    decide(lib, reference, &format!("sonic, replaced component: {}", names[which.min(11)]))
 }
 
 pub fn pst13(cfg: &Cfg, which: usize) -> Verdict {
@@ -483,7 +486,7 @@ where
     let mut pt = w.points[0].1.clone();
     let mut val = w.lps[0].evaluate(&pt);
     let x = sym("x");
-    let names = ["honest", "value", "point[0]", "v[0]", "v[last]", "columns[0][0]", "columns[last][last]", "well_formedness[0]", "path[0].leaf_sibling", "path[0].auth_path[0]", "drop-last-column+path", "v-extended"];
+    let names = ["honest", "value", "point[0]", "v[0]", "v[last]", "columns[0][0]", "columns[last][last]", "well_formedness[0]", "path[0].leaf_sibling", "path[0].auth_path[0]", "drop-last-column+path", "v-extended", "path[last].leaf_sibling", "path[first repeated index].leaf_sibling"];
     {
         let (paths, pv, cols, wf) = proof[0].verif_parts_mut();
         match which {
@@ -498,6 +501,15 @@ where
             9 => { if paths[0].auth_path.is_empty() { return Verdict::Hold } paths[0].auth_path[0] = SymDigest(x) }
             10 => { cols.pop(); paths.pop(); }
             11 => pv.push(x),
+            12 => { let n = paths.len(); paths[n - 1].leaf_sibling_hash = SymDigest(x) }
+            // the path at the first position whose leaf index already occurred at an earlier position
+            13 => {
+                let pos = (1..paths.len()).find(|j| (0..*j).any(|i| paths[i].leaf_index == paths[*j].leaf_index));
+                match pos {
+                    Some(j) => paths[j].leaf_sibling_hash = SymDigest(x),
+                    None => return Verdict::Hold,
+                }
+            }
             _ => {}
         }
     }
@@ -596,7 +608,7 @@ where
         ok = ip == val;
     }
     let lib = catch(|| w.check(&[0], &pt, vec![val], &proof, &mut sp_l));
-    decide(lib, ok, &format!("{}, replaced component: {}", S::NAME, names[which.min(11)]))
+    decide(lib, ok, &format!("{}, replaced component: {}", S::NAME, names[which.min(13)]))
 }
 
 // ---------------------------------------------------------------- inherent APIs: KZG10, multilinear PST, streaming KZG
